@@ -152,6 +152,11 @@ impl RollingReader {
         let directory = Directory::open(dir_path)?;
         let first_file = directory.first_file_number().clone();
         let mut file = directory.open_file(&first_file)?;
+        // A crash between the creation of the very first wal file and its `set_len` leaves it
+        // shorter than a block. It cannot contain any record: give it its nominal size.
+        if file.metadata()?.len() < BLOCK_NUM_BYTES as u64 {
+            file.set_len(FILE_NUM_BYTES as u64)?;
+        }
         let mut block = Box::new([0u8; BLOCK_NUM_BYTES]);
         #[cfg(mrecordlog_verif)]
         {
@@ -311,6 +316,12 @@ impl BlockWrite for RollingWriter {
             let (file_number, file) =
                 if let Some(next_file_number) = self.directory.files.next(&self.file_number) {
                     let file = self.directory.open_file(&next_file_number)?;
+                    // The next file may already exist if we crashed right after creating it,
+                    // possibly before `set_len`: make sure it has its nominal size, as readers
+                    // only consider whole blocks.
+                    if file.metadata()?.len() < FILE_NUM_BYTES as u64 {
+                        file.set_len(FILE_NUM_BYTES as u64)?;
+                    }
                     (next_file_number, file)
                 } else {
                     let next_file_number = self.directory.files.inc(&self.file_number);
